@@ -2,6 +2,7 @@ package props
 
 import (
 	"fmt"
+	"reflect"
 	"sort"
 	"testing"
 
@@ -52,7 +53,7 @@ func genEnvCase(t *rapid.T) *EnvCase {
 	}
 	forms := []string{"raw"}
 	if hostOK {
-		forms = []string{"raw", "struct", "struct", "map"}
+		forms = []string{"raw", "struct", "struct", "map", "dyn", "ptr"}
 	}
 	c.Form0 = forms[rapid.IntRange(0, len(forms)-1).Draw(t, "form0")]
 	// ---- derive E1
@@ -117,7 +118,9 @@ func genEnvCase(t *rapid.T) *EnvCase {
 	}
 	forms1 := []string{"raw"}
 	if host1 {
-		forms1 = []string{"raw", "struct", "struct", "map"}
+		// half of the time the same physical form as at compile time: for the
+		// struct forms that can mean the very same Go type with another yae type
+		forms1 = []string{"raw", "struct", "struct", "map", "dyn", "ptr", c.Form0, c.Form0, c.Form0, c.Form0, c.Form0, c.Form0}
 	}
 	c.Form1 = forms1[rapid.IntRange(0, len(forms1)-1).Draw(t, "form1")]
 	if c.Form1 != "raw" {
@@ -149,6 +152,10 @@ func envObject(en *run.Engine, form string, vals map[string]*m.Val, types bool) 
 			return nil, false
 		}
 		return mp, true
+	case "dyn":
+		return run.EnvStructDyn(vals)
+	case "ptr":
+		return run.EnvStructPtr(vals)
 	}
 	if types {
 		env := map[string]*m.Type{}
@@ -167,6 +174,7 @@ func checkC07(c *EnvCase) *Outcome {
 		return skip("harness:reference-rejects-generated-program")
 	}
 	conf := conforms(c.Env, c.Vals1)
+	sameGo := false
 	// expected result on E1
 	var r1 *CaseRun
 	if conf {
@@ -200,6 +208,9 @@ func checkC07(c *EnvCase) *Outcome {
 		if !ok1 {
 			return skip("form-unavailable")
 		}
+		if c.Form0 != "raw" && c.Form1 != "raw" && reflect.TypeOf(e0) == reflect.TypeOf(e1) {
+			sameGo = true
+		}
 		o := &run.Outcome{Be: be}
 		en.Tr.Reset()
 		o.RunPan = run.Guard(func() { o.Val, o.RunErr = callable(e1) })
@@ -229,6 +240,9 @@ func checkC07(c *EnvCase) *Outcome {
 		}
 	}
 	classes := []string{"form0:" + c.Form0, "form1:" + c.Form1, fmt.Sprintf("conforms:%v", conf)}
+	if sameGo {
+		classes = append(classes, fmt.Sprintf("same-go-type:conforms=%v", conf))
+	}
 	for _, mu := range c.Muts {
 		for i, ch := range mu {
 			if ch == ':' {
@@ -257,7 +271,7 @@ func valsSummary(vals map[string]*m.Val) string {
 var c07 = Register(&Prop[EnvCase]{ID: "C07", Name: "env-check", Gen: genEnvCase, Check: checkC07})
 
 func TestC07(t *testing.T) {
-	R.Rule = "pairs (compile-time environment E0, run-time environment E1): E0 in one of three physical forms (raw types.Env, Go struct built by reflection with yae tags, map[string]interface{}), E1 derived from a conforming environment by 0-3 mutations (drop a name, retype a binding at a drawn depth, add extra names, permute object field order at every depth, make a binding optional, other values of the same types) and given in a drawn physical form; programs over E0's names with effect-recording wrappers; oracle: model predicate conforms(E0,E1); conforming => accepted and result = reference evaluator on E1; non-conforming => error returned, no panic, empty effect log; non-trivial = at least one mutation or a change of physical form"
+	R.Rule = "pairs (compile-time environment E0, run-time environment E1): E0 in one of five physical forms (raw types.Env, Go struct built by reflection with yae tags, map[string]interface{}, Go struct of interface{} fields, Go struct of untagged pointer fields — the last two give one Go type to environments of different yae types), E1 derived from a conforming environment by 0-3 mutations (drop a name, retype a binding at a drawn depth, add extra names, permute object field order at every depth, make a binding optional, other values of the same types) and given in a drawn physical form; programs over E0's names with effect-recording wrappers; oracle: model predicate conforms(E0,E1); conforming => accepted and result = reference evaluator on E1; non-conforming => error returned, no panic, empty effect log; non-trivial = at least one mutation or a change of physical form"
 	R.Assume = []string{"model.Equal is structural type equality (fields by name)", "host forms built by run/host.go denote the model values (this is C15's subject)"}
 	reportKnown(t, "C07")
 	runRegress(t, "C07")
